@@ -4085,12 +4085,12 @@ def speigs(a, charge_sector, k, *args, **kwargs):
         k = min(block_size, k)
         W = np.zeros(k, a.dtype)
         V_flat = np.zeros((block_size, k), a.dtype)
-        V_flat[:k, :k] = np.eye(k, a.dtype)  # chose standard basis as eigenvectors
+        V_flat[:k, :k] = np.eye(k, dtype=a.dtype)  # chose standard basis as eigenvectors
     # convert V_flat to npc Arrays and return
     if ret_eigv:
         V = []
         for j in range(V_flat.shape[1]):
-            U = zeros([a.legs[0]], dtype=a.dtype, qtotal=charge_sector)
+            U = zeros([a.legs[0]], dtype=V_flat.dtype, qtotal=charge_sector)  # eigenvectors of real `a` may be complex
             U._data = [V_flat[:, j]]
             U._qdata = np.array([[qi]], dtype=np.intp)
             if len(piped_axes) > 0:
